@@ -266,3 +266,25 @@ Proof.
       change (92 =? 92) with true. cbv iota. rewrite Enp. rewrite Ed0 in IH |- *. now rewrite IH.
   - cbn [strip_backslash]. rewrite E92. now rewrite IH.
 Qed.
+
+(* the variant used for the language word of a fence (a final backslash stays single: a space or the end of
+   the line follows it) is undone as well *)
+Lemma strip_bs_keep d0 t : is_ascii_punct d0 = false -> strip_backslash (92 :: d0 :: t) = 92 :: strip_backslash (d0 :: t).
+Proof. intros H. cbn [strip_backslash]. change (92 =? 92) with true. cbv iota. now rewrite H. Qed.
+
+Theorem strip_escape_backslashes_inner s : strip_backslash (escape_backslashes_inner s) = s.
+Proof.
+  induction s as [|c r IH]; [reflexivity|].
+  cbn [escape_backslashes_inner]. destruct (c =? 92) eqn:E92.
+  - apply N.eqb_eq in E92. subst c. destruct r as [|d0 r1]; [reflexivity|].
+    cbn [andb]. destruct (is_ascii_punct d0) eqn:Ep.
+    + cbn [strip_backslash]. change (92 =? 92) with true. change (is_ascii_punct 92) with true. cbv iota. now rewrite IH.
+    + assert (Ed0 : d0 =? 92 = false).
+      { destruct (N.eqb_spec d0 92) as [->|_]; [|reflexivity]. vm_compute in Ep. discriminate. }
+      (* the written text is  \ d0 ...  with d0 not punctuation: the backslash is kept, the rest is read on *)
+      assert (Hhead : exists t, escape_backslashes_inner (d0 :: r1) = d0 :: t).
+      { cbn [escape_backslashes_inner]. rewrite Ed0. cbn [andb]. eexists. reflexivity. }
+      destruct Hhead as [t Et]. rewrite Et in IH |- *.
+      rewrite (strip_bs_keep d0 t Ep). now rewrite IH.
+  - cbn [andb strip_backslash]. rewrite E92. now rewrite IH.
+Qed.
